@@ -1,5 +1,6 @@
 import LinfaSpec.Proofs.Determinism
 import LinfaSpec.Proofs.DeterminismOrder
+import LinfaSpec.Proofs.DeterminismVocab
 
 /-!
 # C20 — same data, parameters and seed give bit-identical results on every run
@@ -231,5 +232,107 @@ example : mergeLoop (Stop.numClusters (α := Nat) 2) [(0, 2, 1), (1, 3, 2), (4, 
 `C20-hierarchical-cluster-ids` -/
 theorem hier_labels_orig_order_dependent :
     hierLabelsOrig 2 [(0, [0]), (1, [1])] ≠ hierLabelsOrig 2 [(1, [1]), (0, [0])] := by decide
+
+/-! ## 5. Top-k selections over a hash map (text vocabularies under `max_features`) -/
+
+/-- **Top-k by (key, tie-break) is independent of the map's iteration order.**  For any
+comparison that is transitive, total and — on the entries present — antisymmetric (i.e. the
+tie-break makes it a total order on the entries), sorting the entries of a map and keeping the
+first `k` gives the same list whatever order the map's iterator produced them in. -/
+theorem topk_perm_invariant {ε : Type} (le : ε → ε → Bool)
+    (trans : ∀ a b c, le a b → le b c → le a c) (total : ∀ a b, le a b || le b a)
+    {m₁ m₂ : List ε} (p : m₁ ~ m₂)
+    (antisymm : ∀ a b, a ∈ m₁ → b ∈ m₁ → le a b → le b a → a = b) (k : Nat) :
+    (m₁.mergeSort le).take k = (m₂.mergeSort le).take k := by
+  rw [mergeSort_perm_invariant le trans total p antisymm]
+
+example : ([(3 : Nat), 1, 2].mergeSort (fun a b => decide (a ≤ b))).take 2 =
+    ([(2 : Nat), 3, 1].mergeSort (fun a b => decide (a ≤ b))).take 2 :=
+  topk_perm_invariant _ (by intro a b c; simp; omega) (by intro a b; simp; omega) (by decide)
+    (by intro a b _ _; simp; omega) 2
+
+section Vocabulary
+variable {κ : Type} [LinearOrder κ]
+
+/-- **`max_features` cut of `CountVectorizer`**: the order `(Reverse(freq), Reverse(word), x)` is a
+total order on the entries, so the kept entries do not depend on the iteration order of the
+vocabulary map — no hypothesis on the map (keys need not even be distinct). -/
+theorem cap_selection_perm_invariant {m₁ m₂ : List (κ × Nat × Nat)} (p : m₁ ~ m₂) (cap : Nat) :
+    capVocabulary (some cap) m₁ = capVocabulary (some cap) m₂ :=
+  topk_perm_invariant capLe capLe_trans capLe_total p
+    (fun a b _ _ hab hba => capKey_injective (le_antisymm ((capLe_iff a b).mp hab) ((capLe_iff b a).mp hba))) cap
+
+/-- **The cut ignores the insertion indexes.**  The insertion index `x` of an entry follows the
+iteration order of the per-document `HashSet`; because the word is compared before it (and words
+are what is observable), two vocabularies with the same (word, document frequency) pairs — in any
+order, with any insertion indexes — keep the same words with the same frequencies. -/
+theorem cap_selection_ignores_insertion_index {m₁ m₂ : List (κ × Nat × Nat)}
+    (p : m₁.map wordDf ~ m₂.map wordDf) (cap : Nat) :
+    (capVocabulary (some cap) m₁).map wordDf = (capVocabulary (some cap) m₂).map wordDf := by
+  unfold capVocabulary
+  simp only [List.map_take]
+  rw [sort_wordDf_perm p]
+
+/-- without a cap the vocabulary is handed on as it is: equal as a multiset (the statement compares
+vocabularies as word-to-column maps) -/
+theorem uncapped_vocabulary_perm {m₁ m₂ : List (κ × Nat × Nat)} (p : m₁.map wordDf ~ m₂.map wordDf) :
+    (capVocabulary none m₁).map wordDf ~ (capVocabulary none m₂).map wordDf := p
+
+/-- **The raw vocabulary does not depend on the iteration order of any per-document hash set.**
+For all documents and all iteration orders of every per-document `HashSet` (the two lists of
+sets are element-wise permutations of each other), the vocabularies built by
+`read_document_into_vocabulary` carry the same (word, document frequency) pairs — they differ
+only in the order of the entries and in the insertion indexes. -/
+theorem build_vocabulary_hash_independent {s₁ s₂ : List (List κ)} (h : List.Forall₂ (· ~ ·) s₁ s₂) :
+    (buildVocabulary s₁).map wordDf ~ (buildVocabulary s₂).map wordDf :=
+  buildVocabulary_wordDf_perm h
+
+/-- **`CountVectorizer::fit` with `max_features`**: frequency window, stop words and cut together
+return the same (word, document frequency) list whatever order every hash set on the way was
+iterated in. -/
+theorem fit_vocabulary_hash_independent {s₁ s₂ : List (List κ)} (h : List.Forall₂ (· ~ ·) s₁ s₂)
+    (minAbs maxAbs : Nat) (stop : List κ) (cap : Nat) :
+    fitVocabulary s₁ minAbs maxAbs stop (some cap) = fitVocabulary s₂ minAbs maxAbs stop (some cap) := by
+  unfold fitVocabulary
+  apply cap_selection_ignores_insertion_index
+  rw [dfFilter_wordDf, dfFilter_wordDf]
+  exact (build_vocabulary_hash_independent h).filter _
+
+/-- without a cap: the same word → frequency map (as a multiset; the column order is unspecified) -/
+theorem fit_vocabulary_uncapped_hash_independent {s₁ s₂ : List (List κ)}
+    (h : List.Forall₂ (· ~ ·) s₁ s₂) (minAbs maxAbs : Nat) (stop : List κ) :
+    fitVocabulary s₁ minAbs maxAbs stop none ~ fitVocabulary s₂ minAbs maxAbs stop none := by
+  unfold fitVocabulary capVocabulary
+  simp only
+  rw [dfFilter_wordDf, dfFilter_wordDf]
+  exact (build_vocabulary_hash_independent h).filter _
+
+end Vocabulary
+
+/-- non-vacuity: two words first seen in one document, the hash set iterated both ways: the raw
+vocabularies differ in their insertion indexes, their (word, frequency) pairs are permutations -/
+example : buildVocabulary [[(1 : Nat), 2], [2]] = [(1, 0, 1), (2, 1, 2)] ∧
+    buildVocabulary [[(2 : Nat), 1], [2]] = [(2, 0, 2), (1, 1, 1)] ∧
+    (buildVocabulary [[(1 : Nat), 2], [2]]).map wordDf ~ (buildVocabulary [[(2 : Nat), 1], [2]]).map wordDf := by
+  refine ⟨by decide, by decide, by decide⟩
+
+example : [((1 : Nat), 0, 1), (2, 1, 1)] ~ [((2 : Nat), 1, 1), (1, 0, 1)] := by decide
+
+example : List.Forall₂ (· ~ ·) [[(1 : Nat), 2], [2]] [[2, 1], [2]] :=
+  .cons (by decide) (.cons (by decide) .nil)
+
+/-- a cut whose tie-break is the insertion index (the order `(Reverse(freq), x, word)`) is *not*
+invariant: one document with two new words, its hash set iterated both ways, `max_features = 1`
+(the seeded change `C20-max-features-tie-by-insertion-index`) -/
+theorem cap_by_insertion_index_order_dependent :
+    (capVocabularyByIndex (some 1) (buildVocabulary [[(1 : Nat), 2]])).map wordDf ≠
+      (capVocabularyByIndex (some 1) (buildVocabulary [[(2 : Nat), 1]])).map wordDf := by
+  have h1 : buildVocabulary [[(1 : Nat), 2]] = [(1, 0, 1), (2, 1, 1)] := by decide
+  have h2 : buildVocabulary [[(2 : Nat), 1]] = [(2, 0, 1), (1, 1, 1)] := by decide
+  rw [h1, h2]
+  unfold capVocabularyByIndex
+  simp only
+  rw [List.mergeSort_of_pairwise (by decide), List.mergeSort_of_pairwise (by decide)]
+  decide
 
 end LinfaSpec.Props.C20
